@@ -333,6 +333,20 @@ func ruleFanout(c *Ctx, pl *pipeline, rule string) {
 			sends = append(sends, s)
 		}
 	})
+	selSend := false
+	eachInstr(fn, func(ins ssa.Instruction) {
+		if sel, ok := ins.(*ssa.Select); ok {
+			for _, st := range sel.States {
+				if st.Dir == types.SendOnly {
+					selSend = true
+					c.Fail(rule, "fanout:send-is-select-arm", sel.Pos(), "refuted", "the delivery to a consumer is one arm of a select: when another arm (default, timeout) wins, the message is dropped or delivered later out of order by another goroutine")
+				}
+			}
+		}
+	})
+	if selSend {
+		return
+	}
 	if len(sends) != 1 {
 		c.Fail(rule, "fanout:send-count", fn.Pos(), "unproven", fmt.Sprintf("expected one send site in the fan-out loop, found %d", len(sends)))
 		return
@@ -680,9 +694,9 @@ func ruleKahn(c *Ctx, pl *pipeline, rule string) {
 			case *ssa.Call:
 				if f := x.Call.StaticCallee(); f != nil && f.Object() != nil && f.Object().Pkg() != nil && f.Object().Pkg().Path() == "time" {
 					switch f.Name() {
-					case "Now", "Sleep", "After", "Tick", "NewTimer", "NewTicker", "Since", "Until":
+					case "After", "Tick", "NewTimer", "NewTicker", "AfterFunc":
 						bad++
-						c.Fail(rule, "clock("+P.FnKey(fn)+")", ins.Pos(), "refuted", "clock access in the framing stage: output may depend on timing")
+						c.Fail(rule, "timer("+P.FnKey(fn)+")", ins.Pos(), "refuted", "timer channel in the framing stage: output may depend on timing")
 					}
 				}
 				if b, ok := x.Call.Value.(*ssa.Builtin); ok && (b.Name() == "len" || b.Name() == "cap") && len(x.Call.Args) == 1 {
@@ -731,4 +745,101 @@ func globalIsInitOnly(P *Prog, g *ssa.Global) bool {
 		})
 	}
 	return ok
+}
+
+
+// ruleStreamClose: the stream handler's side of the close discipline (C02):
+// exactly one close of its output parameter, nothing sent or closed afterwards.
+func ruleStreamClose(c *Ctx, pl *pipeline, rule string) {
+	P := c.P
+	n := 0
+	eachInstr(pl.stream, func(ins ssa.Instruction) {
+		cc, ok := builtinCall(ins, "close")
+		if !ok {
+			return
+		}
+		n++
+		prm, _ := root(cc.Args[0]).(*ssa.Parameter)
+		if prm == nil || prm != pl.stream.Params[2] {
+			c.Fail(rule, "HandleMessages:extra-close", ins.Pos(), "refuted", "the stream handler closes something other than its output channel")
+			return
+		}
+		q := pathQuery{goal: func(i ssa.Instruction) bool {
+			if _, isSend := i.(*ssa.Send); isSend {
+				return true
+			}
+			_, isClose := builtinCall(i, "close")
+			return isClose
+		}}
+		if path, _ := q.search(ins.Block(), instrIndex(ins)); path != nil {
+			c.Fail(rule, "HandleMessages:close-then-return", ins.Pos(), "refuted", "after closing the output channel the stream handler can send or close again", P.blockPath(path)...)
+		} else {
+			c.OK(rule, "HandleMessages:close-then-return", ins.Pos(), "single close of the output channel, no send or close reachable afterwards")
+		}
+	})
+	if n != 1 {
+		c.Fail(rule, "HandleMessages:close-count", pl.stream.Pos(), "refuted", fmt.Sprintf("expected exactly one close site of the output channel in the stream handler, found %d", n))
+	}
+	// no other function of the framing packages closes a channel the stream handler owns
+	for _, pk := range []string{"rtcm/handler"} {
+		for _, fn := range P.FuncsIn(pk) {
+			if fn == pl.stream {
+				continue
+			}
+			eachInstr(fn, func(ins ssa.Instruction) {
+				if _, ok := builtinCall(ins, "close"); ok {
+					c.Fail(rule, "extra-close("+P.FnKey(fn)+")", ins.Pos(), "refuted", "a channel is closed in framing code outside the stream handler")
+				}
+			})
+		}
+	}
+}
+
+// ruleStreamTermination: the stream handler returns only after closing its
+// output, only on "done", and "done" arises only from a closed input channel.
+func ruleStreamTermination(c *Ctx, pl *pipeline, rule string) {
+	P := c.P
+	for _, r := range returnsOf(pl.stream) {
+		closed := false
+		eachInstr(pl.stream, func(ins ssa.Instruction) {
+			if _, ok := builtinCall(ins, "close"); ok && instrDominates(ins, r) {
+				closed = true
+			}
+		})
+		c.Check(closed, rule, "HandleMessages:return-after-close", r.Pos(), "return dominated by the close of the output channel", "the stream handler can return without closing its output channel")
+		okDone := false
+		for _, f := range dominatingFacts(r.Block()) {
+			if isErrorTextEquals(f.Cond, "done") && f.Val {
+				okDone = true
+			}
+		}
+		c.Check(okDone, rule, "HandleMessages:exit-on-done", r.Pos(), "return guarded by err.Error()==\"done\"", "the stream handler can stop for a reason other than the end of its input")
+	}
+	doneSites := 0
+	for _, fn := range P.ModFuncs() {
+		if !inPkgs(P, fn, []string{"rtcm/handler", "rtcm/pushback"}) {
+			continue
+		}
+		eachInstr(fn, func(ins ssa.Instruction) {
+			call, ok := ins.(*ssa.Call)
+			if !ok || !calleeIs(call.Call.StaticCallee(), "errors", "New") {
+				return
+			}
+			s, ok := constString(call.Call.Args[0])
+			if !ok || s != "done" {
+				return
+			}
+			doneSites++
+			if fn != pl.pbGet {
+				c.Fail(rule, "done-error("+P.FnKey(fn)+")", ins.Pos(), "refuted", "a \"done\" error is created outside the push-back reader: the stream can be cut short while input remains")
+				return
+			}
+			rss := recvSites(fn)
+			ok2 := len(rss) == 1 && rss[0].ok != nil && rss[0].dominatedByClosed(ins.Block())
+			c.Check(ok2, rule, "L-done:closed-channel-only", ins.Pos(), "\"done\" is produced only on the closed-channel edge of the byte receive", "\"done\" can be produced while the byte channel is still open")
+		})
+	}
+	if doneSites == 0 {
+		c.Fail(rule, "L-done:site", pl.pbGet.Pos(), "unresolved", "no errors.New(\"done\") site found")
+	}
 }
